@@ -291,3 +291,5 @@ func protect(f func() error) (err error, panicked string) {
 	}()
 	return f(), ""
 }
+
+func removeAll(p string) { os.RemoveAll(p) }
